@@ -25,7 +25,7 @@ BEHAV_KINDS = {
     "C05": ["next", "nb", "min", "max"],
     "C06": ["iter"],
     "C07": ["range"],
-    "C08": ["names"],
+    "C08": ["names", "as"],   # names() must stay aligned with as_str of the same variant
 }
 ALL_BEHAV = sorted({k for v in BEHAV_KINDS.values() for k in v})
 
@@ -125,7 +125,7 @@ def no_input_violation(ctx, problem, searched):
 # ------------------------------------------------------------------ behavioural part
 
 def pick_minimal(ms):
-    return sorted(ms, key=lambda m: (m.get("nvariants", 0), len(m.get("op", "")), m.get("sid", "")))
+    return sorted(ms, key=lambda m: (m.get("impl") == "MISSING", m.get("nvariants", 0), len(m.get("op", "")), m.get("sid", "")))
 
 
 def behav_violation(ctx, m, b, kind="impl-differs-from-spec"):
